@@ -1,14 +1,7 @@
 From Coq Require Import List Arith ZArith NArith Bool Lia.
-From Pcfg Require Import TextFile LoaderRt LoaderGenProofs Loader2Rt Loader2RtProofs Loader2Model.
+From Pcfg Require Import TextFile LoaderRt Loader2Rt Loader2RtProofs Loader2Model.
 From PcfgGen Require Import Loader2_gen.
 Import ListNotations.
-
-Lemma if_same {A : Type} (c : bool) (x : A) : (if c then x else x) = x.
-Proof. now destruct c. Qed.
-
-Lemma fold_stop_inl {X M R : Type} (f : X -> M -> M) (l : list X) (m : M) :
-  @fold_stop X M R (fun x m => inl (f x m)) l m = inl (fold_left (fun m x => f x m) l m).
-Proof. revert m. induction l as [|x r IH]; intros m; cbn; [reflexivity | apply IH]. Qed.
 
 Ltac name_keys :=
   change [97; 108; 112; 104; 97; 98; 101; 116; 95; 101; 110; 99; 111; 100; 105; 110; 103]%N with k_alphabet_encoding;
@@ -33,29 +26,6 @@ Ltac name_keys :=
   change [109; 97; 120; 95; 108; 101; 110]%N with k_max_len;
   change [49; 48]%N with k_ten.
 
-Lemma combine_snoc {A B : Type} (a : list A) (b : list B) x y :
-  length a = length b -> combine (a ++ [x]) (b ++ [y]) = combine a b ++ [(x, y)].
-Proof.
-  revert b. induction a as [|a0 a IH]; destruct b as [|b0 b]; cbn; intros H; try discriminate; [reflexivity|].
-  now rewrite IH by (now inversion H).
-Qed.
-
-Lemma getitem_dict_found {T C S : Type} (O : cfg_oracles T C S) (d : list (pyval T C S * pyval T C S)) k v :
-  is_key k = true -> dfind k d = Some v -> dy_getitem O (VDict d) k = XDone v.
-Proof. intros Hk Hf. unfold dy_getitem. now rewrite Hk, Hf. Qed.
-
-Lemma getattr_found {T C S : Type} (a : list (pstr * pyval T C S)) n v :
-  afind n a = Some v -> dy_getattr (VObj a) n = XDone v.
-Proof. intros Hf. unfold dy_getattr. now rewrite Hf. Qed.
-
-Lemma rt_len_3 {X : Type} (a b c : X) r : (rt_len (a :: b :: c :: r) =? 2)%Z = false.
-Proof. apply Z.eqb_neq. unfold rt_len. cbn [length]. lia. Qed.
-
-Lemma getitem_0 {T C S : Type} (O : cfg_oracles T C S) (a : pyval T C S) l : dy_getitem O (VList (a :: l)) (VInt 0) = XDone a.
-Proof. unfold dy_getitem. now rewrite rt_index_0. Qed.
-Lemma getitem_1 {T C S : Type} (O : cfg_oracles T C S) (a b : pyval T C S) l : dy_getitem O (VList (a :: b :: l)) (VInt 1) = XDone b.
-Proof. unfold dy_getitem. now rewrite rt_index_1. Qed.
-
 (* the statements every reader of a level file starts with: line.rstrip('\n\r').split('\t'), the
    two-field test, int(line[0]), level < 0; leaves the case of a well-formed line *)
 Ltac level_prefix ln f k lvl E1 :=
@@ -75,17 +45,6 @@ Ltac level_prefix ln f k lvl E1 :=
 Ltac range_check Hmax lvl E2 :=
   unfold dy_getitem at 1; cbn [is_key]; rewrite dfind_dput_other by reflexivity; rewrite Hmax;
   cbn [x_opt xthen dy_gt dy_lt xbind]; destruct (10 <? lvl)%Z eqn:E2; cbn [xbind x_isa rt_isa]; [reflexivity|].
-
-(* a loop over the lines of a file is the fold of STEP over the model states encoded by ENC, from M0;
-   first goal: the body is STEP on encoded states, second goal: what follows the loop *)
-Ltac lines_loop ENC STEP M0 :=
-  match goal with |- context [rt_for_lines ?all ?rest ?body ?s0 rt_no_else_file ?k] =>
-    let HB := fresh "HB" in
-    assert (HB : forall ln m, body ln (ENC m) = match STEP ln m with inl m' => FCont (ENC m') | inr v => FRet v end);
-    [ cbv beta
-    | rewrite (for_lines_fold ENC STEP body k HB rest all M0 : rt_for_lines all rest body s0 rt_no_else_file k = _);
-      clear HB ]
-  end.
 
 Section OmenGuesser.
 Context (fo : fops) {C SS : Type} (W : world fo C SS).
